@@ -44,6 +44,12 @@ def gen_early(r):
     """The registration request itself runs into a transport failure: no response ever arrives (an ICMP error is
     reported for the server, or all copies time out).  The observation ends then, once, with that network error --
     not with 'not observable', which is a statement about a response that was received."""
+    if r.chance(0.3):
+        # ... or the first response does arrive, says "not observable" (no Observe option) and is the first block of a
+        # body whose later blocks fail (the representation changed: another ETag): the observation has ended once,
+        # with 'not observable', and the failing transfer is the response's business alone
+        return {"early": {"how": "notobs_b2fail", "at": 0.05, "blockwise": True, "con": True, "consumer": r.choice(["callbacks", "both"])},
+                "first": {"observe": None, "delay": 0.005}, "events": [], "consumer": {"iter": None, "callbacks": True}}
     return {"early": {"how": r.choice(["icmp", "icmp", "silent"]), "at": r.choice([0.05, 0.3, 2.5]), "blockwise": r.chance(0.5),
                       "con": r.chance(0.8), "consumer": r.choice(["callbacks", "iter", "both"])},
             "first": {"observe": 0, "delay": 0.005}, "events": [], "consumer": {"iter": None, "callbacks": True}}
@@ -259,6 +265,12 @@ def execute_early(sim, scn):
                 seen.append(loop.now)
                 if ea["how"] == "icmp" and len(seen) == 1:
                     loop.after(ea["at"], sim.net.icmp, src, self.addr, 111)
+                if ea["how"] == "notobs_b2fail":
+                    b2 = rc.opt1(msg, rc.BLOCK2)
+                    num = rc.block_value(b2)[0] if b2 is not None else 0
+                    self.send(src, msg={"type": rc.ACK if msg["type"] == rc.CON else rc.NON, "code": rc.CONTENT, "mid": msg["mid"],
+                                        "token": msg["token"], "payload": b"%016d" % num,
+                                        "options": [(rc.ETAG, b"a" if num == 0 else b"b"), (rc.BLOCK2, rc.block_bytes(num, True, 0))]})
 
     server = Mute(sim, common.PEER_IPS[0], 5683)
     log = {"first": None, "cb": [], "err": [], "iter": [], "iter_end": None}
@@ -298,6 +310,20 @@ def execute_early(sim, scn):
         return  # (a non-confirmable request nobody answers just stays open: nothing ever fails)
     if log["first"] is None:
         sim.violation("C07/request-never-completed", ident)
+        return
+    if ea["how"] == "notobs_b2fail":
+        sim.probe("not_observable")
+        if log["first"][0] != "error" or not isinstance(log["first"][1], error.Error):
+            sim.violation("C07/response-not-failed-with-library-error", dict(ident, first=repr(log["first"][1])[:100]))
+        if len(log["err"]) != 1 or not isinstance(log["err"][0], error.NotObservable):
+            sim.violation("C07/termination-without-cause" if not log["err"] else "C07/observation-ended-twice",
+                          dict(ident, errors=[repr(e)[:80] for e in log["err"]]))
+        import gc
+        log.pop("req", None)
+        gc.collect()
+        for (t, m, en, es) in sim.loop_exceptions():
+            if en == "RuntimeError" and "already cancelled" in (es or ""):
+                sim.violation("C07/observation-ended-twice", dict(ident, loop_exception="%s: %s" % (en, es)))
         return
     if log["first"][0] != "error" or not isinstance(log["first"][1], error.NetworkError):
         sim.violation("C07/network-error-not-signalled", dict(ident, first=repr(log["first"][1])[:100], where="response"))
